@@ -7,6 +7,7 @@ import (
 	"strings"
 	"testing"
 	"time"
+	"verif/mc/guardpage"
 
 	"github.com/segmentio/encoding/iso8601"
 	"verif/mc/explore"
@@ -186,6 +187,77 @@ func baseOfLen(L, kind int) string {
 			s += string(rune('1' + (len(s) % 9)))
 		}
 		return s + tail
+	}
+}
+
+// ---- page-edge: the operand ends at (or starts at) the last (first) byte the process may touch
+
+var edge *guardpage.Region
+
+func pageEdge(c *explore.Ctx) {
+	if edge == nil {
+		edge = guardpage.New()
+	}
+	L := 19 + c.Choose(13)
+	kind := c.Choose(2)
+	base := baseOfLen(L, kind)
+	var n int64
+	try := func(s string) {
+		for _, atEnd := range []bool{true, false} {
+			var b []byte
+			if atEnd {
+				b = edge.AtEnd([]byte(s))
+			} else {
+				b = edge.AtStart([]byte(s), '9')
+			}
+			placed := guardpage.String(b)
+			var got time.Time
+			var gerr error
+			valid := make([]bool, 32)
+			fault, msg := guardpage.Faults(func() {
+				got, gerr = iso8601.Parse(placed)
+				for m := 0; m < 32; m++ {
+					valid[m] = iso8601.Valid(placed, flagsOf(m))
+				}
+			})
+			n++
+			where := map[bool]string{true: "ending at the last accessible byte", false: "starting at the first accessible byte"}[atEnd]
+			if fault {
+				c.Fail("page-edge:reads-outside-the-operand", "Parse / Valid of the %d-byte string %q %s touches memory outside the string: %s", len(s), s, where, msg)
+				continue
+			}
+			want, werr := iso8601.Parse(strings.Clone(s))
+			if (gerr == nil) != (werr == nil) || (gerr == nil && !got.Equal(want)) {
+				c.Fail("page-edge:Parse-differs", "Parse(%q) %s gives %v, %v; elsewhere %v, %v", s, where, got, gerr, want, werr)
+			}
+			for m := 0; m < 32; m++ {
+				if v := iso8601.Valid(strings.Clone(s), flagsOf(m)); v != valid[m] {
+					c.Fail("page-edge:Valid-differs", "Valid(%q, %05b) %s = %v, elsewhere %v", s, m, where, valid[m], v)
+					break
+				}
+			}
+		}
+	}
+	try(base)
+	for cut := 0; cut < len(base); cut++ {
+		try(base[:cut]) // every shorter operand (the word-at-a-time paths are chosen by length)
+	}
+	for _, ext := range []string{"0", "Z", "00", ":00", "+01:00", "123456789"} {
+		try(base + ext)
+	}
+	buf := []byte(base)
+	for pos := 0; pos < len(base); pos++ {
+		for _, x := range []byte{'0', ':', 'x', 0x80, ' ', ','} {
+			buf[pos] = x
+			try(string(buf))
+		}
+		buf[pos] = base[pos]
+	}
+	c.Inner(n)
+	c.Nontrivial(uint64(L)<<1 | uint64(kind))
+	c.Outcome("page-edge")
+	if c.WantSample() {
+		c.Case(map[string]any{"base": base, "placements": n})
 	}
 }
 
@@ -496,6 +568,7 @@ func Spec() *explore.Spec {
 		ID: "C18",
 		Families: []*explore.Family{
 			{Name: "histories", ShardDepth: 1, Body: histories, Doc: "every sequence a, b, a, d, a, a, d, d, b over 14 timestamps (before and after 1970, the same date at different times, offsets, invalid dates and times, a bare date, the empty string): each Parse and each Valid (32 flag subsets) answers as it does for that argument alone, whatever was parsed before"},
+			{Name: "page-edge", ShardDepth: 2, Body: pageEdge, Doc: "base timestamps of every length 19..31 (Z and numeric offset), every prefix, 6 extensions and 6 substitutions at every position, placed so that the string ends at the last byte before an inaccessible page, and so that it starts at the first byte behind one: Parse and Valid (32 flag subsets) touch nothing outside the string (a fault is caught) and answer as they do elsewhere"},
 			{Name: "dates", Body: dates, Doc: "every year 0000-9999 x month 00-13 x day 00-32 x 2 times of day"},
 			{Name: "times", ShardDepth: 2, Body: times, Doc: "hh 00-29 x mm 00-69 x ss 00-69 on 3 dates, with and without fraction"},
 			{Name: "fractions", ShardDepth: 2, Body: fractions, Doc: "fraction length 0-11 x digit patterns x zone suffix x {'.', ','}"},
